@@ -162,8 +162,10 @@ R.contract("Message.__init__", params={"self": "Message", "header": "Opt[Message
                      "self.header.command_flags == old(some(header).command_flags) and "
                      "self.header.command_code == old(some(header).command_code))"),
                     ("generic-keeps-avps",
-                     "implies(is_generic_msg(self) and not is_none(avps) and len(some(avps)) > 0, self._avps == some(avps) "
+                     "implies(is_generic_msg(self) and not is_none(avps) and old(len(some(avps))) > 0, self._avps == some(avps) "
                      "and items(self._avps) == old(items(some(avps))))"),
+                    ("generic-without-avps-is-empty",
+                     "implies(is_generic_msg(self) and (is_none(avps) or old(len(some(avps))) == 0), len(self._avps) == 0)"),
                     ("typed-sets-code", "implies(not is_generic_msg(self), self.header.command_code == class_code(self))")],
            raises=[Raise("AvpDecodeError", "not is_none(avps) and len(some(avps)) > 0", "only_if")],
            modifies=["self.header", "self._avps", "self._Message__find_cache", "header.command_code",
@@ -190,8 +192,25 @@ R.loop("Message.as_bytes", 0,
        hints=["wires_snoc(done, cur)", "all_encodable_at(seq, len(done))"],
        modifies=["avp_packer._Packer__buf.data"])
 
+R.kind_hints[("Message.from_bytes", "[]")] = "List[Avp]"
+
+
+@R.specfn("avp_off")
+def _avp_off(ex, st, b, n):
+    """offset of the n-th top-level AVP of a message buffer: avp_off(b, 0) = 20, avp_off(b, n+1) = d_end(b, avp_off(b, n))
+    (a total recursive definition over the RFC 6733 layout function d_end; its two equations are instantiated as hints)"""
+    from pyvc.models import _ufun
+    return VInt(_ufun(ex, "avp_off", ["(Seq Int)", INT], INT, ex.unwrap(b).t, ex.num(n)))
+
+
 R.contract("Message.from_bytes", params={"msg_data": "bytes", "plain_msg": "bool"}, returns="Message",
-           ensures=[("version", "result.header.version == u32(msg_data[0:4]) // 2**24"),
+           ghost={"j": "int"},
+           ensures=[("avp-sequence-identical-to-the-wire",
+                     "implies(is_generic_msg(result) and 0 <= j < len(result._avps), "
+                     "avp_at(result._avps[j], msg_data, avp_off(msg_data, j)))"),
+                    ("every-byte-belongs-to-a-decoded-avp",
+                     "implies(is_generic_msg(result), avp_off(msg_data, len(result._avps)) == len(msg_data))"),
+                    ("version", "result.header.version == u32(msg_data[0:4]) // 2**24"),
                     ("length", "result.header.length == u32(msg_data[0:4]) % 2**24"),
                     ("flags", "result.header.command_flags == u32(msg_data[4:8]) // 2**24"),
                     ("code", "ite(is_generic_msg(result), result.header.command_code == u32(msg_data[4:8]) % 2**24, "
@@ -205,7 +224,12 @@ R.contract("Message.from_bytes", params={"msg_data": "bytes", "plain_msg": "bool
            allocates=True, props=["C02", "C04"])
 R.loop("Message.from_bytes", 0,
        invariants=[("pos-in-buffer", "0 <= upos(unpacker) and upos(unpacker) <= len(ubuf(unpacker))"),
-                   ("buffer-fixed", "ubuf(unpacker) == msg_data")],
+                   ("buffer-fixed", "ubuf(unpacker) == msg_data"),
+                   ("position-is-the-next-avp-offset", "upos(unpacker) == avp_off(msg_data, len(avps))"),
+                   ("decoded-so-far-identical-to-the-wire",
+                    "implies(0 <= j < len(avps), avp_at(avps[j], msg_data, avp_off(msg_data, j)))")],
+       hints=["avp_off(msg_data, 0) == 20",
+              "avp_off(msg_data, len(avps) + 1) == d_end(msg_data, avp_off(msg_data, len(avps)))"],
        decreases="len(ubuf(unpacker)) - upos(unpacker)",
        modifies=["unpacker._Unpacker__pos", "list:avps"])
 
@@ -299,3 +323,48 @@ R.loop("_traverse_avp_tree", 0,
                    ("same-keys", "code == pair_fst(code_and_vendor_path[0]) and vendor == pair_snd(code_and_vendor_path[0])")],
        hints=["avp_filter_snoc(done, cur, code, vendor)"],
        modifies=["list:found", "*Avp._avps"])
+
+# ---- Message.find_avps: the search cache ------------------------------------------------------------------------
+import ast as _ast
+from pyvc.models import joined_fn_name as _jfn, _ufun as _uf2
+from pyvc.values import VStr as _VStr
+from pyvc.smt import STR
+_KEY_FN = _jfn("/", _ast.parse('(f"{c}_{v}" for c, v in xs)').body[0].value)
+
+
+@R.specfn("path_key")
+def _path_key(ex, st, path):
+    """the cache key of a search path: "/".join(f"{c}_{v}" for c, v in path) - the same uninterpreted function the
+    executor uses for exactly this expression text (a different element expression gives a different function)"""
+    t, ek = ex.as_seq(st, ex.unwrap(path))
+    return _VStr(_uf2(ex, _KEY_FN, ["(Seq Int)"], STR, t))
+
+
+@R.specfn("path_key_injective")
+def _path_key_inj(ex, st, a, b):
+    """T-fmt: decimal renderings joined by '_' and '/' determine the path (assumed, not proved)"""
+    ta, _ = ex.as_seq(st, ex.unwrap(a))
+    tb, _ = ex.as_seq(st, ex.unwrap(b))
+    ka = _uf2(ex, _KEY_FN, ["(Seq Int)"], STR, ta)
+    kb = _uf2(ex, _KEY_FN, ["(Seq Int)"], STR, tb)
+    return VBool(_Imp(Eq(ka, kb), Eq(ta, tb)))
+
+
+R.macro("cache_ok", ["m", "g"],
+        "implies(path_key(g) in m._Message__find_cache and len(g) == 1, "
+        "items(m._Message__find_cache[path_key(g)]) == avp_filter(items(m._avps), pair_fst(g[0]), pair_snd(g[0])))")
+R.contract("Message.find_avps", params={"self": "Message!", "code_and_vendor": "Seq[Any:pair]", "alt_list": "Opt[List[Avp]]"},
+           returns="List[Avp]", ghost={"g": "Seq[Any:pair]"},
+           requires=[("message-searched-itself", "is_none(alt_list)"),
+                     ("cache-holds-results-of-this-avp-list", "cache_ok(self, g) and cache_ok(self, code_and_vendor)")],
+           hints=["path_key_injective(g, code_and_vendor)"],
+           ensures=[("single-element-path-returns-exactly-the-matching-avps-in-order",
+                     "implies(len(code_and_vendor) == 1, items(result) == "
+                     "avp_filter(items(self._avps), pair_fst(code_and_vendor[0]), pair_snd(code_and_vendor[0])))"),
+                    ("cache-stays-consistent", "cache_ok(self, g)"),
+                    ("avp-list-untouched", "items(self._avps) == old(items(self._avps))")],
+           raises=[Raise("AvpDecodeError", "len(code_and_vendor) > 1", "only_if")],
+           modifies=["dict:self._Message__find_cache", "*Avp._avps"], props=["C02"],
+           note="for the generic Message class (avps is the stored list); alt_list searches share the cache keys of the "
+                "message's own searches (see DESIGN section 7: outside the property's quantifier) and are excluded")
+R.assume("T-fmt: the find_avps cache key is an injective function of the (code, vendor) path (decimal renderings joined by '_' and '/')")
